@@ -23,6 +23,7 @@ func init() {
 		Assume: []string{"exactly-once processing at the due height is judged item by item by the module properties' own models (C03, C06, C08, C18); C13 adds the cross-module chain, the abort recorder and the queue-object bijection", "third-party coin transfers into module escrow accounts are not generated on shared chains"},
 		Cases:  func(t string) int { return tierN(t, 6, 48) },
 		Run:    runBlockProc,
+		RequireTotals: aliveTotals(nil),
 	})
 }
 
@@ -111,6 +112,7 @@ func runBlockProc(run *ev.Run, c int) {
 		for _, w := range chain.ws {
 			w.Observe(br)
 		}
+		chain.countTxs(br)
 		run.Eval(1)
 		kinds := map[string]bool{}
 		for _, tx := range br.Txs {
